@@ -162,12 +162,14 @@ class Inspector:
             # We avoid `inspect.getdoc` to avoid getting
             # the `__doc__` attribute from a parent class,
             # but we still want to clean the doc.
-            cleaned = cleandoc(value)
+            cleandoc(value)
         except AttributeError:
             # Triggered on method descriptors.
             return None
+        # The value is cleaned by `Docstring` itself: cleaning it a second time could change it
+        # (when the first line is indented deeper than a following one).
         return Docstring(
-            cleaned,
+            value,
             parser=self.docstring_parser,
             parser_options=self.docstring_options,
         )
